@@ -33,6 +33,7 @@ CONSTANTS Profiles,   \* set of [n, mods, blk, sizes, rates]: number of legs, Ch
           NestMax,
           NestN,      \* number of legs of the outer pipe (the nested pipe included)
           NestLegRate,\* the further legs: <= 2 blocks of sizes 1..2, a seeded 1/NestLegRate sample
+          OpMax,      \* SplitManyOK (two pipes, cutoff; quartic) is evaluated for pipes with at most OpMax index tuples
           DeclMax     \* MapIsKeyRank, SplitAfterCombine (quadratic) are evaluated for pipes with at most DeclMax index tuples
 
 VARIABLES prof,    \* bound profile of the behaviour
@@ -156,6 +157,36 @@ KeyRankOf(M, P, so) ==
 CombineT(P, T) == [p \in 1..Len(P.map) |-> T[CHOOSE f \in 1..Len(P.map) : P.map[f] = p - 1]]
 SplitT(P, C) == [f \in 1..Len(P.map) |-> C[P.map[f] + 1]]
 TestTensor(P) == [f \in 1..NTuples(P) |-> f]          \* val[i_1..i_n] = 1 + C-order flat index
+
+\* Several pipes in one tensor: the "operator" O over the ket legs l_1..l_n and the bra legs conj(l_1)..conj(l_n),
+\* total charge 0, so O[f][g] may be non-zero iff the index tuples f and g fuse to the same charge.  Its entries are
+\* non-positive with zeros in between (-(1 + C-index), 0 where (f + g) is a multiple of 3).  combine_legs with the
+\* pipes P and conj(P) gives C[P.map[f]][P.map[g]] = O[f][g].  split_legs(axes) names a SET of legs of C: in
+\* whatever order the pipes are undone, by index or by label, the result is O.  split_legs(cutoff = eps) may leave
+\* out blocks all of whose entries are <= eps in absolute value; for eps below the smallest non-zero |entry| (the
+\* integer stand-in is eps = 0) that never changes the tensor, whatever the signs of the entries are.
+Abs(x) == IF x < 0 THEN -x ELSE x
+OpVal(N, f, g) == IF (f + g) % 3 = 0 THEN 0 ELSE -((f - 1) * N + g)
+OpTensor(M, P) == LET N == Len(P.map)  e == EffFlat(M, P.out)
+                  IN Mat([f \in 1..N |-> Mat([g \in 1..N |-> IF e[P.map[f] + 1] = e[P.map[g] + 1] THEN OpVal(N, f, g) ELSE 0])])
+InvMap(P) == Mat([p \in 1..Len(P.map) |-> CHOOSE f \in 1..Len(P.map) : P.map[f] = p - 1])
+Combine2(P, O) == LET iv == InvMap(P) N == Len(P.map) IN Mat([p \in 1..N |-> Mat([q \in 1..N |-> O[iv[p]][iv[q]]])])
+SplitKetThenBra(P, C) == LET N == Len(P.map)
+                             S1 == Mat([f \in 1..N |-> C[P.map[f] + 1]])
+                         IN Mat([f \in 1..N |-> Mat([g \in 1..N |-> S1[f][P.map[g] + 1]])])
+SplitBraThenKet(P, C) == LET N == Len(P.map)
+                             T1 == Mat([p \in 1..N |-> Mat([g \in 1..N |-> C[p][P.map[g] + 1]])])
+                         IN Mat([f \in 1..N |-> T1[P.map[f] + 1]])
+\* q_map row (= block of the split tensor on that side) an index tuple belongs to
+RowOf(P, f) == CHOOSE r \in 1..Len(P.qmap) :
+                  LET a == SumTo(P.out.sizes, P.qmap[r][3]) IN a + P.qmap[r][1] <= P.map[f] /\ P.map[f] < a + P.qmap[r][2]
+DropSmallBlocks(P, O, c) ==
+    LET N == Len(P.map)  row == Mat([f \in 1..N |-> RowOf(P, f)])
+    IN Mat([f \in 1..N |-> Mat([g \in 1..N |->
+            IF \A f2, g2 \in 1..N : (row[f2] = row[f] /\ row[g2] = row[g]) => Abs(O[f2][g2]) <= c THEN 0 ELSE O[f][g]])])
+SplitManyOKOf(M, P) == LET O == OpTensor(M, P)  C == Combine2(P, O)
+                       IN /\ SplitKetThenBra(P, C) = O /\ SplitBraThenKet(P, C) = O
+                          /\ DropSmallBlocks(P, O, 0) = O
 
 ------------------------------------------------------------------------------
 (* catalogue profiles.  rates[k] thins the choice of the k-th leg to a seeded 1/rates[k] sample *)
@@ -402,6 +433,9 @@ ConvKeepsPipe == [][ phase' = "done" => pipe' = pipe /\ inner' = inner ]_pvars
 \* split_legs(combine_legs(T)) = T on the dense level
 SplitAfterCombine ==
     (InPipe /\ NTuples(pipe) <= DeclMax) => LET T == TestTensor(pipe) IN SplitT(pipe, CombineT(pipe, T)) = T
+
+\* two pipes split in one call in either order, and split with a cutoff below the smallest non-zero |entry|
+SplitManyOK == (InPipe /\ NTuples(pipe) <= OpMax) => SplitManyOKOf(mods, pipe)
 
 \* nested pipes: the composition is again a bijection and fuses the charges of all innermost legs
 NestedOK ==
